@@ -375,6 +375,23 @@ fn check_float(out: &mut Out, x: f64) {
         expect_tree(out, "float/embedded", &format!("a-{}+2", s), &b("+", b("-", Ast::Read("a".into()), c(want.clone())), c(RV::Int(2))));
         expect_tree(out, "float/embedded", &format!("({})", s), &c(want.clone()));
         expect_tree(out, "float/embedded", &format!("{}-{}", s, s), &b("-", c(want.clone()), c(want.clone())));
+        // two literals in one input whose text differs only in the sign of the exponent: each denotes its own value
+        if let Some(p) = s.find(|ch| ch == 'e' || ch == 'E') {
+            let (hd, rest) = s.split_at(p + 1);
+            let twin = match rest.chars().next() {
+                Some('-') => format!("{}+{}", hd, &rest[1..]),
+                Some('+') => format!("{}-{}", hd, &rest[1..]),
+                _ => format!("{}-{}", hd, rest),
+            };
+            if let Ok(y) = twin.parse::<f64>() {
+                if y.is_finite() {
+                    let w2 = RV::Float(y);
+                    expect_tree(out, "float/two-literals", &format!("{},{}", s, twin), &Ast::Tuple(vec![c(want.clone()), c(w2.clone())]));
+                    expect_tree(out, "float/two-literals", &format!("{} , {} , {}", twin, s, twin), &Ast::Tuple(vec![c(w2.clone()), c(want.clone()), c(w2.clone())]));
+                    expect_tree(out, "float/two-literals", &format!("{}*{}", s, twin), &b("*", c(want.clone()), c(w2.clone())));
+                }
+            }
+        }
         // at the end of a long program in which the literal's own `<mantissa>e` head was used as an identifier before
         let head = s.find(|ch| ch == 'e' || ch == 'E').map(|p| &s[..=p]);
         let head = head.filter(|h| matches!(classify_word(h), WordClass::MantissaE | WordClass::Ident));
